@@ -30,7 +30,7 @@ RULE = ("all configurations law x parameter set x L_max x bins; per configuratio
         "edge, the floats directly below/above it, edge +- 1e-9 L_max, (k+0.3) w for every class k, 0, L_max, "
         "next float above L_max, L_max (1+1e-12), 1.5 L_max} x both signs x both branches (ranges up to 2 L_max) "
         "x call styles (python float, np.float64, Series against the single table, per-point Series against "
-        "per-point tables of 1-3 points with distinct maxima and three sign patterns); one case per (configuration, "
+        "per-point tables of 1-4 points with distinct and with tied maxima and three sign patterns); one case per (configuration, "
         "branch, style, load); non-trivial = load within 1e-9 L_max of a class edge, or zero, or at/over the range limit")
 ASSUMPTIONS = [
     "the class edge of the property is the float stored in the table's load column; (T1) checks these are "
@@ -51,9 +51,11 @@ DEFAULT_TOL = 1e-4
 
 PARAMS = [("guideline-example-1", 206000.0, 1184.0, 0.187, 3.5), ("Al_wrought/300", 70000.0, 624.0583486028388, 0.128, 2.0)]
 LAWS = ("ExtendedNeuber", "SeegerBeste")
-MAXIMA_MENU = [[1.0], [1.0, 0.6], [1.0, 1.7, 0.45]]       # per-point maxima as multiples of L_max (first is not the largest)
-NODE_IDS = [11, 5, 8]
-SIGN_PATTERNS = {"+": (1, 1, 1), "-": (-1, -1, -1), "+-": (1, -1, 1)}
+# per-point maxima as multiples of L_max (first is not the largest); the last two menus have TIES (points sharing their
+# maximum, as neighbouring nodes of a mesh do), one of them with the distinct values not ascending along the points
+MAXIMA_MENU = [[1.0], [1.0, 0.6], [1.0, 1.7, 0.45], [0.6, 0.6], [1.0, 1.7, 0.45, 1.7]]
+NODE_IDS = [11, 5, 8, 2]
+SIGN_PATTERNS = {"+": (1, 1, 1, 1), "-": (-1, -1, -1, -1), "+-": (1, -1, 1, -1)}
 TIERS = {
     "quick": {"L_max": (100.0, 250.0, 333.3), "bins": (2, 3, 7, 10, 100), "perpoint_bins": (2, 3, 7, 10)},
     "thorough": {"L_max": (100.0, 250.0, 333.3, 1000.0), "bins": (2, 3, 5, 7, 10, 13, 50, 64, 100),
